@@ -151,6 +151,11 @@ func ParseValidators(extra []byte) ([][]byte, error) {
 		return nil, sdkerrors.Wrap(ErrInvalidValidatorBytes, "(validatorsBytes % AddressLength) should bz zero")
 	}
 	n := len(validatorBytes) / addressLength
+	// the list of an epoch header becomes the pending validator set: an empty one would leave the client without
+	// validators (and its pending set cannot be exported)
+	if n == 0 {
+		return nil, sdkerrors.Wrap(ErrInvalidValidatorBytes, "epoch header carries no validators")
+	}
 	result := make([][]byte, n)
 	for i := 0; i < n; i++ {
 		address := make([]byte, addressLength)
